@@ -646,10 +646,26 @@ pub fn triggers(src: &str, root: &SyntaxNode) -> Vec<&'static str> {
                 }
             }
             // R44: a comment directly inside a math delimiter pair gains / loses blanks
+            // (a line comment anywhere in the pair, or any comment as the last thing before the closing
+            // delimiter; a block comment followed by content is laid out consistently)
             K::MathDelimited
-                if f.node.children().any(|c| {
-                    syn::is_comment(c.kind()) || (c.kind() == K::Math && c.children().any(|x| syn::is_comment(x.kind())))
-                }) =>
+                if {
+                    let mut seq: Vec<&SyntaxNode> = vec![];
+                    for c in f.node.children() {
+                        if c.kind() == K::Math {
+                            seq.extend(c.children());
+                        } else {
+                            seq.push(c);
+                        }
+                    }
+                    let sig: Vec<&SyntaxNode> = seq.iter().copied().filter(|c| c.kind() != K::Space).collect();
+                    // ... or a comment right behind the opening delimiter that is followed by a line break
+                    let first_then_nl = seq.iter().position(|c| syn::is_comment(c.kind())).is_some_and(|i| {
+                        seq[..i].iter().filter(|c| c.kind() != K::Space).count() == 1
+                            && seq.get(i + 1).is_some_and(|n| n.kind() == K::Space && syn::has_nl(n.text()))
+                    });
+                    first_then_nl || sig.iter().any(|c| c.kind() == K::LineComment) || (sig.len() >= 2 && syn::is_comment(sig[sig.len() - 2].kind()))
+                } =>
             {
                 add("R44")
             }
